@@ -268,6 +268,12 @@ func init() {
 	regEnv("("+abPkg+".Router).Post", "Router.Post(path, h): effect", routeEffect("POST"))
 	regEnv("("+abPkg+".Router).Delete", "Router.Delete(path, h): effect", routeEffect("DELETE"))
 
+	regEnv("("+abPkg+"/otp/twofactor/sms2fa.SMSSender).Send", "SMSSender.Send(ctx, number, text): effect; arbitrary error",
+		func(ex *Executor, st *State, c *callCtx) []callResult {
+			err := ex.freshErr(st, "sms")
+			st.Emit("SMS.Send", []Value{c.Args[1], c.Args[2]}, []Value{err}, ex.pos(c.Pos))
+			return one(st, err)
+		})
 	// client state (read side)
 	regEnv("("+abPkg+".ClientState).Get", "ClientState.Get(key): pure function of (state, key); request-scoped read state never changes during a request",
 		func(ex *Executor, st *State, c *callCtx) []callResult {
